@@ -68,6 +68,15 @@ def check(case, stats):
             # is_done() is a pure query, and step()/run() on a simulation that is already done are no-ops, so the
             # simulation still "has not started" afterwards
             try:
+                # every read-only inspection function is a pure query as well (C16): what it computed for an earlier
+                # program must not survive into the next load
+                if cfg["kind"] == "toy":
+                    for name in snap.TOY_INSPECT:
+                        snap.toy_call(s1, name)
+                else:
+                    for name in snap.RV_INSPECT:
+                        snap.rv_call(s1, name)
+                    s1.state.instruction_memory.get_representation()
                 if s1.is_done() and not s1.has_started:
                     probed += 1
                     s1.step()
